@@ -305,3 +305,42 @@ Example c15_retry_converges :
   synced u h = true /\ nwatch (run u h) = 1 /\
   map (fun log => fst (get_values (crun false (map OCall log)))) (subs (run u h)) = [Ok [7; 8]].
 Proof. vm_compute. repeat split; reflexivity. Qed.
+
+(* ---------------------------------------------------------------- round 6 *)
+(* The server cancels a watch stream while the connection stays up (Rewatch: channel closed / cancel response).
+   watch() creates the replacement WithRev(rev+1) for the revision of that stream's snapshot, so the server sends
+   everything committed since, in order -- whether it was delivered before, missed, or committed between the
+   cancellation and the creation of the replacement. Afterwards nothing is missing: the history is synced again
+   (so c15_cluster_tracks / c15_converges give view = registry), every listener was told the replayed changes,
+   and the same number of streams is running. *)
+Theorem c15_rewatch_no_gap : forall u h, subs (run u h) <> [] ->
+  synced u (h ++ [Rewatch]) = true /\
+  subs (run u (h ++ [Rewatch])) =
+    map (fun l => l ++ map bcall (filter (fun b => u (bkey b)) (wlog (run u h)))) (subs (run u h)) /\
+  nwatch (run u (h ++ [Rewatch])) = nwatch (run u h).
+Proof.
+  intros u h H. split; [apply rewatch_resyncs; assumption|]. apply rewatch_reaches.
+  apply watching_of_subs. assumption.
+Qed.
+Print Assumptions c15_rewatch_no_gap.
+
+Example c15_rewatch_example :
+  let u := fun _ : key => true in
+  (* svc/1 leaves and svc/2 arrives after the stream was cancelled (not delivered); the replacement replays *)
+  let h := [Subscribe [] [] []; Put 1 7 true; Del 1 false; Put 2 8 false; Rewatch; Put 3 7 true] in
+  synced u h = true /\
+  map (fun log => fst (get_values (crun false (map OCall log)))) (subs (run u h)) = [Ok [7; 8]] /\
+  map (fun log => mapping (crun false (map OCall log))) (subs (run u h)) = [[(3, 7); (2, 8)]].
+Proof. vm_compute. repeat split; reflexivity. Qed.
+
+(* Several discov:// targets built by one builder in one process (target i = key i on the cluster, mrun): every
+   Build has its own subscriber and its own ClientConn, so for EVERY target, whatever was built before or after it,
+   the last state pushed to its ClientConn is the live set under ITS key. *)
+Theorem c15_resolver_per_target : forall us vf h i log init sched,
+  consistent vf (project i h) -> synced (us i) (project i h) = true ->
+  In log (subs (mrun us h i)) -> init ++ arrived sched = log ->
+  let r := rrun build_order init sched in
+  r_todo r = [] ->
+  exists ps vs, r_pushes r = ps ++ [Ok vs] /\ NoDup vs /\ forall v, In v vs <-> live (us i) (spec_etcd (project i h)) v.
+Proof. exact resolver_per_target. Qed.
+Print Assumptions c15_resolver_per_target.
